@@ -4,6 +4,7 @@ go 1.21
 
 require (
 	github.com/gdamore/tcell/v2 v2.0.0
+	github.com/mattn/go-runewidth v0.0.16
 	golang.org/x/sys v0.29.0
 	golang.org/x/text v0.21.0
 )
@@ -11,7 +12,6 @@ require (
 require (
 	github.com/gdamore/encoding v1.0.1 // indirect
 	github.com/lucasb-eyer/go-colorful v1.2.0 // indirect
-	github.com/mattn/go-runewidth v0.0.16 // indirect
 	github.com/rivo/uniseg v0.4.3 // indirect
 	golang.org/x/term v0.28.0 // indirect
 )
